@@ -5,7 +5,7 @@ use crate::lp::{thickness, Thickness};
 use crate::q::Q;
 use crate::regions::{AffMap, Config, FnSide, Form};
 use crate::report::{catch, par_cases, CaseOut, Report, Tier, Violation};
-use crate::snap::{conform, snap, Snap, TreeSide};
+use crate::snap::{conform_face, snap, Snap, TreeSide};
 use affinitree::pwl::afftree::AffTree;
 use serde_json::json;
 use std::ops::{Add, Div, Mul, Sub};
@@ -103,10 +103,12 @@ fn judge(sa: &Snap, sb: Option<&Snap>, res: &AffTree<2>, reference: &dyn crate::
     let mut conf_err = None;
     let mut cfg = Config::default();
     cfg.max_mismatches = 16;
-    let o = refine(n, &imp, reference, &cfg, out, &mut |face, _, _| match conform(res, &sr, &face.w, true) {
-        Ok(true) => conf += 1,
-        Ok(false) => {}
-        Err(e) => conf_err = Some(e),
+    let o = refine(n, &imp, reference, &cfg, out, &mut |face, _, _| {
+        let (n, e) = conform_face(res, &sr, face, true);
+        conf += n;
+        if let Some(e) = e {
+            conf_err = Some(e)
+        }
     });
     out.add("traces_validated_against_impl", conf);
     if let Some(e) = conf_err {
